@@ -17,6 +17,14 @@ Tie to the source, every run (tools/harness/c15_crash.py, children forked from a
  * real interpreter sessions with atexit saving: find() without cache = first run = run after restart, and the
    restart restores what the first run had cached.
 
+ * the json module (tools of the extension, Model/C15_json.v): for every generated cache -- the caches of the sweeps
+   and histories and a stream of caches whose paths and attributes hold quotes, backslashes, control characters,
+   DEL, non-ASCII, astral characters, lone surrogates, big integers, nested attributes -- the bytes save_cache wrote
+   are compared with `json_dump (doc_of c)` evaluated in Coq, the restart with `load_file json_load`, and json.load's
+   accept / reject (and value) with `json_load`'s on every truncation, every damaged file and every prefix of the
+   written documents.  A difference is reported with its input (signature json-dump-bytes / json-load-verdict /
+   json-load-value).
+
 Because the model provably meets the specification under hypotheses that every generated case carries
 (valid datetimes, one entry per path, attributes a dictionary), a disagreement there is a failing input.
 Forms the property does not fix (lenient acceptances of the present code such as "2018-1-1T0:0:0.5", an
@@ -31,15 +39,18 @@ from pathlib import Path
 from lib import core
 from lib.core import zlit, zlist, coq_list, coq_bool
 
-PREAMBLE = "From Typhon Require Import Model.C15_cache.\n"
+PREAMBLE = "From Typhon Require Import Model.C15_cache Model.C15_json.\n"
 HARNESS = core.VERIF / "tools" / "harness" / "c15_crash.py"
 TRUSTED = [
     "correspondence harness tools/props/c15.py + tools/harness/c15_crash.py (generators, crash injection by wrapping "
     "open / write / close / shutil.move / os.rename / os.replace from outside, classification of the files)",
     "POSIX rename replaces the destination atomically (the model's Rename primitive); no power-failure / fsync model",
-    "the json module: json.load(json.dump(v)) = v for JSON-native values and json.load rejects every proper prefix "
-    "of a dumped list (hypotheses of save_load_roundtrip / truncated_file; exercised by the round trips and by "
-    "truncation at every byte, json.loads being the oracle for 'rejected')",
+    "the json module of CPython behaves as Model/C15_json.v (json_dump = json.dump with default arguments, json_load = "
+    "json.load, for null / booleans / integers / strings / lists / dictionaries): no longer a hypothesis of the theorems "
+    "(json_roundtrip, json_prefix_free are proved about the model) but a correspondence, compared on every run byte for "
+    "byte on every written cache file and verdict for verdict on every truncation / damaged file / prefix; outside the "
+    "model: floats (number syntax with fraction or exponent, NaN, Infinity -- texts whose value holds a float are skipped "
+    "and counted), the 4300-digit limit of int(), the recursion limit of the scanner, the text decoding of open()",
     "datetime.strftime / strptime of CPython + glibc behave as the digit-level model (exercised on every generated time "
     "and time string); only ASCII time strings are generated (\\d also matches other Unicode digits)",
     "a process forked from an interpreter that has only imported typhon stands for a new interpreter; "
@@ -308,8 +319,14 @@ def run_sessions(root, template, cachefile, start, end, placeholder, init_cov=No
 
 def eval_roundtrips(ctx, caches, name="rt"):
     """Model: what a restart makes of the document save_cache writes for each cache.
-    Returns list of (warned, canonical cache) or None."""
-    vals, log = core.coq_eval(ctx.work / "cases", name, PREAMBLE, [f"run_roundtrip {cache_term(c)}" for c in caches], shard=8)
+    Returns list of (warned, canonical cache, time strings, json) or None; `json` holds the same through the model of
+    the json module: the bytes json_dump writes for the document, whether the cache is inside the subset of
+    json_roundtrip, and what load_file json_load makes of those bytes."""
+    exprs = [f"(fun c => (run_roundtrip c, (cache_subsetb c, run_json_roundtrip c))) {cache_term(c)}" for c in caches]
+    pre = getattr(ctx, "pre", {}).get(name)
+    if pre is not None and pre[0] == exprs:
+        return pre[1]                      # evaluated beside the harness (see precompute)
+    vals, log = core.coq_eval(ctx.work / "cases", name, PREAMBLE, exprs, shard=8)
     if log:
         ctx.log(log[-1500:])
     out = []
@@ -317,10 +334,115 @@ def eval_roundtrips(ctx, caches, name="rt"):
         if v is None:
             out.append(None)
         else:
-            strings, (warned, shown) = v
+            strings, (warned, shown), (subset, (mbytes, (jwarned, jshown))) = v
             out.append((bool(warned), canon_model(shown),
-                        [["".join(map(chr, a)), "".join(map(chr, b))] for a, b in strings]))
+                        [["".join(map(chr, a)), "".join(map(chr, b))] for a, b in strings],
+                        {"subset": bool(subset), "bytes": list(mbytes), "warned": bool(jwarned), "canon": canon_model(jshown)}))
+    if hasattr(ctx, "pre"):
+        ctx.pre[name] = (exprs, out)
     return out
+
+
+def json_stats(ctx):
+    return ctx.cov.setdefault("json_tie", {"documents_compared_byte_for_byte": 0, "bytes_compared": 0,
+                                           "texts_given_to_json_load_and_model": 0, "accepted_by_both": 0,
+                                           "prefixes_compared": 0, "float_texts_skipped": 0,
+                                           "caches_outside_the_subset": 0})
+
+
+def subset_ok(v):
+    """The subset of json_roundtrip, decided here as well: no high surrogate directly followed by a low one."""
+    if isinstance(v, str):
+        return not any(0xD800 <= ord(a) <= 0xDBFF and 0xDC00 <= ord(b) <= 0xDFFF for a, b in zip(v, v[1:]))
+    if isinstance(v, list):
+        return all(subset_ok(x) for x in v)
+    if isinstance(v, dict):
+        return all(subset_ok(k) and subset_ok(x) for k, x in v.items())
+    return not isinstance(v, float)
+
+
+def check_doc_bytes(ctx, what, entries, predicted, doc, case):
+    """The tie of json_dump: the bytes (or, for a text, the characters) of the cache file that save_cache wrote against
+    json_dump (doc_of c) evaluated in Coq; and, inside the hypotheses of save_load_roundtrip_json, the model's own restart
+    against the identity."""
+    if predicted is None or doc is None:
+        return False
+    j = predicted[3]
+    st = json_stats(ctx)
+    st["documents_compared_byte_for_byte"] += 1
+    written = list(doc) if isinstance(doc, (bytes, bytearray)) else [ord(ch) for ch in doc]
+    st["bytes_compared"] += len(written)
+    ok = True
+    if written != j["bytes"]:
+        i = next((k for k, (a, b) in enumerate(zip(written, j["bytes"])) if a != b), min(len(written), len(j["bytes"])))
+        show = lambda xs: "".join(chr(x) if 32 <= x < 127 else f"<{x:02x}>" for x in xs[max(0, i - 25):i + 35])  # noqa: E731
+        ctx.fail("correspondence", f"{what}: the bytes save_cache wrote differ from json_dump of the model (json.dump with default "
+                 f"arguments) at offset {i} of {len(written)}/{len(j['bytes'])}: file ...{show(written)!r}, model ...{show(j['bytes'])!r}",
+                 case=case, impl=show(written), model=show(j["bytes"]), signature="json-dump-bytes")
+        ok = False
+    inside = j["subset"] and cache_hyp(entries)
+    if j["subset"] != all(subset_ok(e["path"]) and subset_ok(e["attr"]) for e in entries):
+        ctx.fail("correspondence", "the harness and the model disagree on whether a cache is inside the subset of json_roundtrip",
+                 case=case, signature="harness")
+    if not j["subset"]:
+        st["caches_outside_the_subset"] += 1
+    if inside and (j["warned"] or j["canon"] != canon_entries(entries)):
+        ctx.fail("proof", "load_file json_load (json_dump (doc_of c)) differs from the identity inside Coq (cannot happen while "
+                 "save_load_roundtrip_json stands)", case=case, model=[j["warned"], j["canon"]], signature="model-vs-spec")
+        ok = False
+    if (j["warned"], j["canon"]) != (predicted[0], predicted[1]) and inside:
+        ctx.fail("proof", "the restart through json_load / json_dump differs from the restart of the codec-free model",
+                 case=case, signature="model-vs-spec")
+        ok = False
+    return ok
+
+
+def eval_prefix_verdicts(ctx, texts, name):
+    """prefix_verdicts of the model for these texts (memoised: most are evaluated beside the harness)."""
+    memo = ctx.__dict__.setdefault("prefix_memo", {})
+    todo = [t for t in dict.fromkeys(texts) if t not in memo]
+    if todo:
+        vals, log = core.coq_eval(ctx.work / "cases", name, PREAMBLE,
+                                  [f"prefix_verdicts {zlist([ord(ch) for ch in t])}" for t in todo], shard=1)
+        if log:
+            ctx.log(log[-1500:])
+        for t, v in zip(todo, vals):
+            memo[t] = v
+    return memo
+
+
+def check_prefixes(ctx, docs, name="prefix"):
+    """json.load's verdict on EVERY prefix of written cache documents against json_load's (theorem json_prefix_free says the
+    model rejects all proper ones).  docs: list of (text, case)."""
+    docs = [(t, c) for t, c in docs if t is not None]
+    if not docs:
+        return
+    memo = eval_prefix_verdicts(ctx, [t for t, _ in docs], name)
+    st = json_stats(ctx)
+    for t, case in docs:
+        v = memo.get(t)
+        if v is None:
+            ctx.fail("correspondence", "Coq evaluation of prefix_verdicts failed", case=case, signature="coq-eval")
+            continue
+        for k in range(len(t) + 1):
+            try:
+                json.loads(t[:k])
+                acc = True
+            except ValueError:
+                acc = False
+            st["prefixes_compared"] += 1
+            if acc != bool(v[k]):
+                ctx.fail("correspondence", f"json.load {'accepts' if acc else 'rejects'} the first {k} of {len(t)} characters of a "
+                         f"written cache document, json_load of the model {'accepts' if v[k] else 'rejects'} them: {t[:k][-80:]!r}",
+                         case={"kind": "load", "job": {"id": 0, "file": {"text": t[:k]}, "via": "init", "c0": None},
+                               "damage": "truncate"}, signature="json-load-verdict")
+                break
+            if acc and k < len(t):
+                ctx.fail("failing-input", f"a proper prefix ({k} of {len(t)} characters) of a cache document written by save_cache is "
+                         f"a complete JSON document: a truncated cache file would be loaded: {t[:k][-80:]!r}",
+                         case={"kind": "load", "job": {"id": 0, "file": {"text": t[:k]}, "via": "init", "c0": None},
+                               "damage": "truncate"}, signature="prefix-accepted")
+                break
 
 
 def note_format(ctx, predicted, doc_text):
@@ -400,12 +522,44 @@ def make_sweep(rng, k, n, variant):
     return job
 
 
-def check_sweeps(ctx, jobs, results):
+def sweep_caches(jobs):
     caches = []
     for j in jobs:
         caches.append(j["entries"])
         caches.append(j["old_entries"] or [])
-    preds = eval_roundtrips(ctx, caches, "rtsweep")
+    return caches
+
+
+def history_caches(jobs):
+    caches = []
+    for j in jobs:
+        caches.append(j["init_entries"] or [])
+        for st in j["steps"]:
+            caches.append([dict(e, poison=False) for e in st["entries"]])
+    return caches
+
+
+def precompute(ctx, sweeps, histories, loads, codec):
+    """Everything the model says that does not depend on an observation, evaluated in Coq while the harness children run
+    (the checks pick the results up by name and recompute whatever is missing)."""
+    ctx.pre = {}
+    ps = eval_roundtrips(ctx, sweep_caches(sweeps), "rtsweep")
+    eval_roundtrips(ctx, history_caches(histories), "rthist")
+    pc = eval_roundtrips(ctx, [j["entries"] for j in codec], "rtcodec")
+    eval_load_exprs(ctx, load_exprs(loads)[0])
+    texts = []
+    for k, j in enumerate(sweeps):
+        if len(j["entries"]) <= ctx.n(6, 20) and ps[2 * k] is not None:
+            texts.append("".join(map(chr, ps[2 * k][3]["bytes"])))
+    for p in pc:
+        if p is not None and len(p[3]["bytes"]) <= ctx.n(1500, 6000):
+            texts.append("".join(map(chr, p[3]["bytes"])))
+    eval_prefix_verdicts(ctx, texts, "prefix")
+    ctx.log("model evaluated beside the harness")
+
+
+def check_sweeps(ctx, jobs, results):
+    preds = eval_roundtrips(ctx, sweep_caches(jobs), "rtsweep")
     exprs = []
     for j, r in zip(jobs, results):
         if "error" in r:
@@ -419,6 +573,7 @@ def check_sweeps(ctx, jobs, results):
         ctx.log(log[-1500:])
     points = 0
     nontrivial = set()
+    prefix_docs = []
     for idx, (j, r) in enumerate(zip(jobs, results)):
         case = {"kind": "sweep", "job": {k: v for k, v in j.items() if not k.startswith("_")}}
         if "error" in r:
@@ -437,6 +592,11 @@ def check_sweeps(ctx, jobs, results):
                              "are not open/write*/close/rename; only the property itself is checked there")
         pred_new, pred_old = preds[2 * idx], preds[2 * idx + 1]
         note_format(ctx, pred_new, r.get("new_doc") or "")
+        check_doc_bytes(ctx, "crash sweep, the new document", j["entries"], pred_new, r.get("new_doc"), case)
+        if j["old_entries"] is not None:
+            check_doc_bytes(ctx, "crash sweep, the previous document", j["old_entries"], pred_old, r.get("old_doc"), case)
+        if len(j["entries"]) <= ctx.n(6, 20):
+            prefix_docs.append((r.get("new_doc"), case))
         has_old = j["old_entries"] is not None
         want_old = "old" if has_old else "missing"
         ok_all = True
@@ -479,6 +639,7 @@ def check_sweeps(ctx, jobs, results):
         ctx.sample({"sweep": {"entries": len(j["entries"]), "variant": j["variant"], "primitives": n,
                               "classes": "".join({"missing": "-", "old": "o", "new": "N", "other": "X"}[p["main"]] for p in pts)[-12:]}},
                    limit=3)
+    check_prefixes(ctx, [(t, c) for t, c in prefix_docs if t is not None and t.isascii()], "sweepprefix")
     return points, len(nontrivial)
 
 
@@ -506,12 +667,7 @@ def make_history(rng, k):
 
 
 def check_histories(ctx, jobs, results):
-    caches = []
-    for j in jobs:
-        caches.append(j["init_entries"] or [])
-        for st in j["steps"]:
-            caches.append([dict(e, poison=False) for e in st["entries"]])
-    preds = eval_roundtrips(ctx, caches, "rthist")
+    preds = eval_roundtrips(ctx, history_caches(jobs), "rthist")
     exprs = []
     for j, r in zip(jobs, results):
         if "error" in r:
@@ -544,6 +700,11 @@ def check_histories(ctx, jobs, results):
         if model is None:
             ctx.fail("correspondence", "Coq evaluation of the history model failed", case=case, signature="coq-eval")
             continue
+        if j["init_entries"] is not None:
+            check_doc_bytes(ctx, "history, the initial document", j["init_entries"], preds[base], r.get("init_doc"), case)
+        for i, (st, d) in enumerate(zip(j["steps"], r.get("ref_docs") or [])):
+            check_doc_bytes(ctx, f"history, the document of step {i}", [dict(e, poison=False) for e in st["entries"]],
+                            preds[base + 1 + i], d, dict(case, step=i))
         kinds = set()
         for i, (st, o, m) in enumerate(zip(j["steps"], r["steps"], model)):
             sub = dict(case, step=i)
@@ -654,36 +815,110 @@ def text_job(k, text, meta):
     return job
 
 
-def check_loads(ctx, jobs, results):
-    exprs, where = [], []
-    for i, j in enumerate(jobs):
-        if j["_parsed"] and safe_value(j["_value"]):
-            exprs.append(f"show_load (load {cache_term(j['c0'] or [])} {jterm(j['_value'])})")
-            where.append(i)
+def job_text(j):
+    """The text json.load is given when load_cache opens this file (None: missing, a directory, not UTF-8).
+    open() in text mode hands "\r\n" and "\r" on as "\n"."""
+    f = j.get("file")
+    if not f or f.get("dir"):
+        return None
+    if "text" in f:
+        t = f["text"]
+    elif "hex" in f:
+        try:
+            t = bytes.fromhex(f["hex"]).decode("utf-8")
+        except UnicodeDecodeError:
+            return None
+    else:
+        return None
+    return t.replace("\r\n", "\n").replace("\r", "\n")
+
+
+def same_json(a, b):
+    """Equality of JSON values that tells true from 1 and keeps the order of dictionaries."""
+    try:
+        return json.dumps(a) == json.dumps(b)
+    except Exception:
+        return False
+
+
+def eval_load_exprs(ctx, exprs):
+    pre = getattr(ctx, "pre", {}).get("load")
+    if pre is not None and pre[0] == exprs:
+        return pre[1]
     vals, log = core.coq_eval(ctx.work / "cases", "load", PREAMBLE, exprs, shard=80)
     if log:
         ctx.log(log[-1500:])
+    if hasattr(ctx, "pre"):
+        ctx.pre["load"] = (exprs, vals)
+    return vals
+
+
+def load_exprs(jobs):
+    """The Coq terms for the files of these jobs: json_load's verdict / value and the whole load_file."""
+    exprs, where = [], []
+    texts = {}
+    for i, j in enumerate(jobs):
+        t = job_text(j)
+        if t is None:
+            continue
+        try:
+            pv = json.loads(t)
+            acc = True
+        except ValueError:
+            pv, acc = None, False
+        except RecursionError:
+            continue
+        texts[i] = (t, acc, pv)
+        if acc and not safe_value(pv):
+            continue
+        exprs.append(f"(fun t => (match json_load t with Some v => [v] | None => [] end, "
+                     f"show_load (load_file json_load {cache_term(j['c0'] or [])} (Content t)))) {zlist([ord(ch) for ch in t])}")
+        where.append(i)
+    return exprs, where, texts
+
+
+def check_loads(ctx, jobs, results):
+    """Every damaged (or intact) file: json.load's verdict and value against json_load's, and what load_cache makes of the
+    file against load_file json_load evaluated in Coq."""
+    exprs, where, texts = load_exprs(jobs)
+    vals = eval_load_exprs(ctx, exprs)
     model = {i: v for i, v in zip(where, vals)}
     nontrivial = set()
     kinds = {}
+    st = json_stats(ctx)
     for i, (j, r) in enumerate(zip(jobs, results)):
         meta = j["_meta"]
         case = {"kind": "load", "job": {k: v for k, v in j.items() if not k.startswith("_")}, "damage": meta.get("kind")}
         ctx.cov["evaluations"] += 1
         kinds[meta["kind"]] = kinds.get(meta["kind"], 0) + 1
         c0 = canon_entries(j["c0"] or [])
-        if j["_parsed"] and not safe_value(j["_value"]):
-            continue
-        if j["_parsed"]:
-            if model.get(i) is None:
-                ctx.fail("correspondence", "Coq evaluation of load failed", case=case, signature="coq-eval")
+        if i in texts:
+            t, acc, pv = texts[i]
+            if acc and not safe_value(pv):
+                st["float_texts_skipped"] += 1        # outside the modelled subset of JSON
                 continue
-            warned, shown = model[i]
+            if model.get(i) is None:
+                ctx.fail("correspondence", "Coq evaluation of json_load / load_file failed", case=case, signature="coq-eval")
+                continue
+            parsed, (warned, shown) = model[i]
+            st["texts_given_to_json_load_and_model"] += 1
+            # the tie of json_load: verdict and value
+            if bool(parsed) != acc:
+                ctx.fail("correspondence", f"json.load {'accepts' if acc else 'rejects'} a text that json_load of the model "
+                         f"{'accepts' if parsed else 'rejects'} ({meta['kind']}): {t[:200]!r}", case=case,
+                         impl=repr(pv)[:200] if acc else "rejected", model=repr(parsed)[:200], signature="json-load-verdict")
+                continue
+            if acc:
+                st["accepted_by_both"] += 1
+                if not same_json(unj(parsed[0]), pv):
+                    ctx.fail("correspondence", f"json.load and json_load of the model read different values from {t[:200]!r}",
+                             case=case, impl=repr(pv)[:300], model=repr(unj(parsed[0]))[:300], signature="json-load-value")
+                    continue
             want = (bool(warned), canon_model(shown))
         elif j["file"] is None:
             want = (False, c0)                 # theorem damaged_file: missing -> silent, untouched
         else:
-            want = (True, c0)                  # unreadable / rejected by json.load -> warning, untouched
+            want = (True, c0)                  # unreadable (a directory, not UTF-8): open / decoding raises -> warning, untouched
         if "error" in r:
             ctx.fail("correspondence", f"harness error: {r['error']}", case=case, signature="harness")
             continue
@@ -701,7 +936,8 @@ def check_loads(ctx, jobs, results):
             ctx.fail("failing-input", f"loading a damaged cache file ({meta['kind']}) raises {r['raised']} instead of warning",
                      case=case, impl=r, model=want, signature="load-raised")
         elif want[0]:
-            # the model (= the specification, theorem malformed_warns) says: malformed -> warning, cache untouched
+            # the model (= the specification, theorems malformed_warns / truncated_file_json) says: malformed -> warning,
+            # cache untouched
             what = "is accepted without a warning" if not r.get("warned") else "warns but changes the cache"
             extra = ""
             if meta["kind"] == "null-time" or (obs and any("BAD" in x for x in obs)):
@@ -709,12 +945,228 @@ def check_loads(ctx, jobs, results):
             ctx.fail("failing-input", f"a malformed cache document ({meta['kind']}) {what}{extra}: file "
                      f"{json.dumps(j['file'])[:200]}, cache afterwards {str(r.get('cache'))[:200]}", case=case, impl=r,
                      model={"warned": True, "cache": want[1]},
-                     signature="malformed-accepted:" + meta["kind"] if not r.get("warned") else "malformed-partial-update")
+                     signature="malformed-accepted:" + meta["kind"].split(":")[0] if not r.get("warned") else "malformed-partial-update")
         else:
             ctx.fail("failing-input", f"a well-formed cache document ({meta['kind']}) is not loaded as written: "
                      f"{json.dumps(j['file'])[:200]} -> warned={r.get('warned')} {(r.get('msg') or [''])[0][-100:]!r}",
                      case=case, impl=r, model={"warned": False, "cache": want[1]}, signature="wellformed-rejected")
     return len(nontrivial), kinds
+
+
+# ----------------------------------------------------------------------------- the json module: nasty strings
+
+NASTY = ['"', '\\', '/', '\n', '\r', '\t', '\b', '\f', '\x00', '\x01', '\x1f', ' ', '~', '\x7f', '\x80', '\xa0', '\xe9', '\xfc',
+         '\u20ac', '\u2028', '\ud7ff', '\ue000', '\uffff', '\U00010000', '\U0001F600', '\U0010ffff', '\udc80', '\udcff', '\ud800',
+         '\udbff', 'a', 'u', '0', '\\u0041', '\\"', "'", '{', '}', '[', ']', ',', ':', '\\n']
+
+
+def in_subset_str(t):
+    """Keep a generated string inside the subset of json_roundtrip: a low surrogate never directly after a high one (such a
+    pair of code points is written as two escapes and read back by json.load as ONE character)."""
+    out = []
+    for ch in t:
+        if out and 0xD800 <= ord(out[-1][-1]) <= 0xDBFF and 0xDC00 <= ord(ch[0]) <= 0xDFFF:
+            out.append("-")
+        out.append(ch)
+    return "".join(out)
+
+
+def gen_nasty(rng, lo=0, hi=8):
+    return in_subset_str([rng.choice(NASTY) for _ in range(rng.randint(lo, hi))])
+
+
+def gen_nasty_value(rng, depth=0):
+    k = rng.random()
+    if depth > 3 or k < 0.5:
+        return rng.choice([None, True, False, 0, -1, 7, 10, 100, -120, 2 ** 63, -2 ** 64, 10 ** 30, rng.randint(-10 ** 9, 10 ** 9),
+                           gen_nasty(rng), gen_nasty(rng), gen_nasty(rng, 8, 20)])
+    if k < 0.75:
+        return [gen_nasty_value(rng, depth + 1) for _ in range(rng.choice([0, 1, 2, 3]))]
+    return {gen_nasty(rng, 0, 4): gen_nasty_value(rng, depth + 1) for _ in range(rng.choice([0, 1, 2, 3]))}
+
+
+PARSER_TOKENS = ['[', ']', '{', '}', ',', ':', '"', '\\', ' ', '\n', '\t', '\r', '0', '1', '9', '-', '.', 'e', 'E', '+', 'n', 'u', 'l', 't', 'r',
+                 'f', 'a', 's', 'null', 'true', 'false', '""', '"a"', '\\u', '\\ud83d', '\\ude00', '\\u00e9', '\\uD83D\\uDE00', '\\n', '\\/',
+                 '\\x', 'NaN', 'Infinity', '-Infinity', '\x0c', '\x00', '\x7f', '\xe9', '\U0001F600', '\ufeff', '1.5', '1e5', '-0', '00',
+                 '[]', '{}', '"k": ', ', ', '\\u00E9', '\\uDC00']
+
+
+def directed_parser_texts():
+    """One-entry cache documents in which a single place is written in a way json.load must accept or must reject --
+    whatever the seed.  (kind, text)"""
+    def doc(value='"v"', path='"/data/x.nc"', ws=" ", pre="", post="", key='"a"'):
+        return (f'{pre}[{{"path":{ws}{path},{ws}"times":{ws}["2018-01-01T00:00:00.000000",{ws}"2018-01-02T00:00:00.000000"],'
+                f'{ws}"attr":{ws}{{{key}:{ws}{value}}}}}]{post}')
+    out = [("plain", doc())]
+    # raw characters inside a string: below U+0020 never, everything else as it is
+    for name, ch in [("tab", "\t"), ("newline", "\n"), ("cr", "\r"), ("nul", "\x00"), ("us", "\x1f"), ("ff", "\x0c"), ("bs", "\x08")]:
+        out.append((f"raw-control-{name}-in-path", doc(path=f'"/data/{ch}x.nc"')))
+        out.append((f"raw-control-{name}-in-attr", doc(value=f'"a{ch}b"')))
+        out.append((f"raw-control-{name}-in-key", doc(key=f'"k{ch}"')))
+    for name, ch in [("del", "\x7f"), ("nbsp", "\xa0"), ("ls", "\u2028"), ("euro", "\u20ac"), ("astral", "\U0001F600"), ("ffff", "\uffff")]:
+        out.append((f"raw-{name}-in-path", doc(path=f'"/data/{ch}x.nc"')))
+    # escapes
+    for name, esc in [("solidus", "\\/"), ("upper-hex", "\\u00E9"), ("pair-upper", "\\uD83D\\uDE00"), ("pair-mixed", "\\ud83D\\uDe00"),
+                      ("lone-high", "\\ud83dx"), ("lone-high-end", "\\ud83d"), ("lone-low", "\\ude00"), ("high-high-low", "\\ud83d\\ud83d\\ude00"),
+                      ("high-then-bmp", "\\ud83d\\u0041"), ("nul-escape", "\\u0000"), ("all-short", "\\\"\\\\\\/\\b\\f\\n\\r\\t"),
+                      ("bad-x", "\\x41"), ("bad-upper-u", "\\U0041"), ("bad-hex", "\\u12G4"), ("short-hex", "\\u123"), ("bad-a", "\\a"),
+                      ("bad-quote", "\\'"), ("bad-0", "\\0"), ("pair-bad-second", "\\ud83d\\uZZZZ"), ("backslash-end", "abc\\")]:
+        out.append((f"escape-{name}", doc(value=f'"{esc}"')))
+        out.append((f"escape-{name}-in-path", doc(path=f'"/p/{esc}"')))
+    # numbers and literals
+    for name, v in [("zero", "0"), ("minus-zero", "-0"), ("big", "123456789012345678901234567890"), ("neg", "-17"), ("leading-zero", "01"),
+                    ("minus-leading-zero", "-01"), ("plus", "+1"), ("minus-only", "-"), ("dot-end", "1."), ("dot-start", ".5"),
+                    ("exp-no-digits", "1e"), ("exp-sign-only", "1e+"), ("hex", "0x10"), ("two-minus", "--1"), ("digits-space", "1 2"),
+                    ("True", "True"), ("None", "None"), ("nul", "nul"), ("nulll", "nulll"), ("TRUE", "TRUE"), ("empty", ""),
+                    ("single-quotes", "'v'"), ("bare-word", "v"), ("true", "true"), ("false", "false"), ("null", "null"),
+                    ("nested", "[[[[{\"a\": [null, {}]}]]]]"), ("trailing-comma-list", "[1,]"), ("leading-comma", "[,1]"),
+                    ("two-commas", "[1,,2]"), ("trailing-comma-object", "{\"a\": 1,}"), ("missing-colon", "{\"a\" 1}"),
+                    ("unquoted-key", "{a: 1}"), ("number-key", "{1: 1}"), ("dup-key", "{\"a\": 1, \"b\": 2, \"a\": 3}"),
+                    ("empty-key", "{\"\": 1}"), ("missing-value", "{\"a\":}"), ("comment", "1 /* c */"), ("unclosed-list", "[1"),
+                    ("unclosed-object", "{\"a\": 1"), ("mismatched", "[1}"), ("deep", "[" * 200 + "]" * 200)]:
+        out.append((f"value-{name}", doc(value=v)))
+    # whitespace: space, tab, newline, carriage return and nothing else
+    for name, w in [("tab", "\t"), ("newline", "\n"), ("crlf", "\r\n"), ("many", " \t\n\r "), ("none", ""), ("formfeed", "\x0c"),
+                    ("vtab", "\x0b"), ("nbsp", "\xa0"), ("nul", "\x00"), ("ideographic", "\u3000"), ("bom", "\ufeff")]:
+        out.append((f"whitespace-{name}", doc(ws=w)))
+        out.append((f"leading-{name}", doc(pre=w)))
+        out.append((f"trailing-{name}", doc(post=w)))
+    for name, x in [("garbage", "x"), ("second-doc", " []"), ("comma", ","), ("bracket", "]"), ("quote", '"'), ("nul", "\x00")]:
+        out.append((f"trailing-{name}", doc(post=x)))
+    return out
+
+
+def make_parser_jobs(rng, n, first_id):
+    """Texts for json.load itself, through the real load_cache: cache documents written the way OTHER programs (or other
+    arguments of json.dump) write JSON -- raw non-ASCII, other whitespace, indentation, escapes json.dump never produces --
+    and small damage to them.  A mutated text that still parses may be one of the lenient forms the property does not
+    fix; there only the json tie (verdict and value of json.load against json_load) is binding."""
+    import locale
+    utf8 = locale.getpreferredencoding(False).lower().replace("-", "") == "utf8"
+    jobs = []
+    for k in range(n):
+        entries = gen_cache(rng, rng.choice([0, 1, 2, 3]), modern=True)
+        for e in entries:
+            if rng.random() < 0.6:
+                e["path"] = e["path"] + gen_nasty(rng, 1, 6)
+            if rng.random() < 0.4:
+                e["attr"] = {gen_nasty(rng, 0, 3): gen_nasty_value(rng, 2)}
+        doc = doc_value(entries)
+        style = rng.random()
+        raw = utf8 and rng.random() < 0.6
+        kw = {"ensure_ascii": not raw}
+        if style < 0.3:
+            kw["indent"] = rng.choice([0, 1, 2, "\t"])
+        elif style < 0.6:
+            kw["separators"] = rng.choice([(",", ":"), (" , ", " : "), (",\n", ":\t"), (",\r\n", ": ")])
+        text = json.dumps(doc, **kw)
+        if rng.random() < 0.3:
+            text = rng.choice(["", " ", "\n", "\t \r\n"]) + text + rng.choice(["", " ", "\n", "\r\n\t "])
+        mutated = rng.random() < 0.5
+        if mutated:
+            t = list(text)
+            for _ in range(rng.choice([1, 1, 2])):
+                i = rng.randrange(len(t) + 1)
+                op = rng.random()
+                if op < 0.35 and t:
+                    del t[min(i, len(t) - 1)]
+                elif op < 0.85:
+                    t[i:i] = list(rng.choice(PARSER_TOKENS))
+                elif t:
+                    j2 = rng.randrange(len(t) + 1)
+                    del t[min(i, j2):max(i, j2)]
+            text = "".join(t)
+        try:
+            text.encode("utf-8")
+            if not utf8:
+                text.encode("ascii")
+        except UnicodeEncodeError:
+            text = json.dumps(doc)
+            mutated = False
+        try:
+            json.loads(text)
+            parses = True
+        except (ValueError, RecursionError):
+            parses = False
+        job = text_job(first_id + k, text, {"kind": "other-json-writer" + ("-damaged" if mutated else ""),
+                                            "lenient": bool(mutated and parses)})
+        job["_cost"] = 1
+        jobs.append(job)
+    for kind, text in directed_parser_texts():
+        try:
+            text.encode("utf-8" if utf8 else "ascii")
+        except UnicodeEncodeError:
+            continue
+        # a byte order mark in front is the business of open()'s decoding, which is outside the model: noted only
+        job = text_job(first_id + len(jobs), text, {"kind": "json-text:" + kind, "lenient": kind == "leading-bom"})
+        job["_cost"] = 1
+        jobs.append(job)
+    return jobs
+
+
+def make_codec_jobs(rng, n):
+    every = in_subset_str(NASTY)
+    deep = {}
+    for _ in range(30):
+        deep = {"d": [deep]}
+    directed = [
+        [],
+        [{"path": "/all/" + every, "t0": list(TMIN), "t1": list(TMAX), "attr": {every: every, "": [every, {}, []]}}],
+        [{"path": "/big", "t0": [2016, 2, 29, 23, 59, 59, 1], "t1": [2016, 3, 1, 0, 0, 0, 0],
+          "attr": {"n": [0, -1, 9, 10, 99, 100, 2 ** 63, -2 ** 63, 2 ** 64, 10 ** 30, -10 ** 30], "deep": deep}}],
+        # outside the subset: the two code points come back as one character; compared with the model only
+        [{"path": "/pair/\ud83d\ude00", "t0": [2018, 1, 1, 0, 0, 0, 0], "t1": [2018, 1, 1, 0, 0, 0, 0], "attr": {}}],
+    ]
+    jobs = []
+    for k in range(n):
+        if k < len(directed):
+            entries = directed[k]
+        else:
+            entries = []
+            for i in range(rng.choice([1, 1, 2, 3, 5])):
+                t0 = gen_time(rng)
+                t1 = gen_time(rng) if rng.random() < 0.7 else list(t0)
+                if tuple(t1) < tuple(t0):
+                    t0, t1 = t1, t0
+                attr = {gen_nasty(rng, 0, 4): gen_nasty_value(rng) for _ in range(rng.choice([0, 1, 2, 4]))}
+                entries.append({"path": f"/c{i}/" + gen_nasty(rng, 0, 12), "t0": t0, "t1": t1, "attr": attr})
+        jobs.append({"kind": "codec", "id": k, "entries": entries, "_cost": 3})
+    return jobs
+
+
+def check_codec(ctx, jobs, results):
+    preds = eval_roundtrips(ctx, [j["entries"] for j in jobs], "rtcodec")
+    nontrivial = set()
+    prefix_docs = []
+    for j, r, pred in zip(jobs, results, preds):
+        case = {"kind": "codec", "job": {k: v for k, v in j.items() if not k.startswith("_")}}
+        ctx.cov["evaluations"] += 1
+        if "error" in r:
+            ctx.fail("failing-input", f"save_cache of a valid cache failed outright: {r['error']}", case=case,
+                     signature="save-failed")
+            continue
+        if pred is None:
+            ctx.fail("correspondence", "Coq evaluation of the model failed", case=case, signature="coq-eval")
+            continue
+        doc = bytes.fromhex(r["doc_hex"])
+        ok = check_doc_bytes(ctx, "save_cache of a cache with unusual characters", j["entries"], pred, doc, case)
+        jm = pred[3]
+        load = r["load"]
+        obs = canon_observed(load)
+        if load.get("raised") or obs != jm["canon"] or bool(load.get("warned")) != jm["warned"]:
+            inside = jm["subset"] and cache_hyp(j["entries"])
+            ctx.fail("failing-input" if inside else "correspondence",
+                     "save_cache + restart of a cache with unusual characters in paths / attributes does not give what "
+                     "load_file json_load (json_dump (doc_of c)) gives" + (" (= the cache itself)" if inside else ""),
+                     case=case, impl={"warned": load.get("warned"), "raised": load.get("raised"), "cache": load.get("cache")},
+                     model={"warned": jm["warned"], "cache": jm["canon"]}, signature="roundtrip-characters")
+            ok = False
+        if ok and j["entries"]:
+            nontrivial.add(json.dumps(case, sort_keys=True))
+        if all(b < 128 for b in doc) and len(doc) <= ctx.n(1500, 6000):
+            prefix_docs.append((doc.decode("ascii"), case))
+    check_prefixes(ctx, prefix_docs, "codecprefix")
+    return len(nontrivial)
 
 
 # ----------------------------------------------------------------------------- real sessions (restart, atexit)
@@ -820,7 +1272,6 @@ def check_e2e(ctx, cases):
 
 def run(ctx):
     ctx.notes = []
-    ctx.prove("Props/C15.v")
     rng = ctx.rng
     # 1. every crash point of caches with 0..20 entries (both tiers), over several previous states
     variants = ["fresh", "old", "old+stale", "stale"]
@@ -834,23 +1285,41 @@ def run(ctx):
     for j in loads:
         j["_cost"] = 1
     e2e = [make_e2e(rng, k) for k in range(ctx.n(5, 15))]
+    # generated last: the cases above are the same as before the json tie existed (stored seeded changes depend on them)
+    codec = make_codec_jobs(rng, ctx.n(40, 400))
+    loads += make_parser_jobs(rng, ctx.n(300, 3000), len(loads))
 
-    all_jobs = sweeps + histories + loads
-    ctx.log(f"harness: {len(sweeps)} crash sweeps, {len(histories)} histories, {len(loads)} damaged files, {len(e2e)} session cases")
+    all_jobs = sweeps + histories + loads + codec
+    ctx.log(f"harness: {len(sweeps)} crash sweeps, {len(histories)} histories, {len(loads)} damaged files, {len(e2e)} session cases, "
+            f"{len(codec)} caches with unusual characters")
+    # the harness children (process creation, typhon) and Coq (the proofs, the model on the generated cases) do not need
+    # each other: they run side by side, the observations are compared with the model afterwards
     with ThreadPoolExecutor(max_workers=2) as ex:
         fut_e2e = ex.submit(check_e2e, ctx, e2e)
-        results = run_jobs(ctx, all_jobs, workers=max(4, core.NPROC - 4))
+        fut_jobs = ex.submit(run_jobs, ctx, all_jobs, max(4, core.NPROC - 4))
+        ctx.prove("Props/C15.v")
+        try:
+            precompute(ctx, sweeps, histories, loads, codec)
+        except Exception as e:  # noqa -- the checks below evaluate what is missing
+            ctx.log(f"precompute: {type(e).__name__}: {e}")
+        results = fut_jobs.result()
         nt_e2e = fut_e2e.result()
     ctx.log("harness done")
     for i, r in enumerate(results):
         if r is None:
             results[i] = {"error": "no result from the harness"}
-    rs, rh, rl = results[:len(sweeps)], results[len(sweeps):len(sweeps) + len(histories)], results[len(sweeps) + len(histories):]
+    a, b, c = len(sweeps), len(sweeps) + len(histories), len(sweeps) + len(histories) + len(loads)
+    rs, rh, rl, rc = results[:a], results[a:b], results[b:c], results[c:]
     points, nt_s = check_sweeps(ctx, sweeps, rs)
+    ctx.log("crash sweeps compared")
     nt_h = check_histories(ctx, histories, rh)
+    ctx.log("histories compared")
     nt_l, kinds = check_loads(ctx, loads, rl)
+    ctx.log("damaged files compared")
+    nt_c = check_codec(ctx, codec, rc)
+    ctx.log("json tie on caches with unusual characters compared")
 
-    ctx.cov["distinct_nontrivial"] = nt_s + nt_h + nt_l + nt_e2e
+    ctx.cov["distinct_nontrivial"] = nt_s + nt_h + nt_l + nt_e2e + nt_c
     ctx.cov["rule"] = ("crash sweep: a save with more than one write over a non-trivial state (non-empty cache, previous file "
                        "or stale backup), every primitive a crash point; history: at least two different outcomes among "
                        "completed / died / raised; damaged file: the specification demands a warning; session case: the "
@@ -858,7 +1327,9 @@ def run(ctx):
     ctx.cov["input_distribution"] = {
         "crash_sweeps": len(sweeps), "crash_points": points, "entries_per_cache": "0..20 (each size in both tiers)",
         "previous_state": variants, "histories": len(histories), "damaged_files": len(loads), "damage_kinds": kinds,
-        "session_cases": len(e2e),
+        "session_cases": len(e2e), "caches_with_unusual_characters": len(codec),
+        "characters": "quote, backslash, /, \\n \\r \\t \\b \\f, U+0000, U+0001, U+001F, DEL, U+0080, Latin-1, U+20AC, U+2028, U+D7FF, U+E000, "
+                      "U+FFFF, U+10000, U+1F600, U+10FFFF, lone surrogates (U+DC80, U+DCFF, U+D800, U+DBFF), integers up to 10^30",
         "times": "datetime.min, datetime.max, years 1..999, 1000, 9999, leap days, month ends, microseconds 0/1/10/.../999999",
     }
     if ctx.notes:
@@ -872,6 +1343,9 @@ def run(ctx):
         "of the atoms written, which may be single bytes)",
         "a missing cache file gives an empty cache (the code is silent there: the normal first run; the check accepts a "
         "warning as well); a warning is required for unreadable and malformed files",
+        "the json tie compares ASCII files byte for byte (json.dump writes nothing else with ensure_ascii=True); caches are "
+        "generated inside the subset of json_roundtrip (no high surrogate directly followed by a low one, no floats) except "
+        "for one directed case that is compared with the model only",
         "the present code's lenient acceptances (one-digit fields, 't', extra list elements, non-dictionary attr, non-string "
         "path, {} or \"\" as a document) are modelled as they are and compared, but not required by the property",
     ]
@@ -894,6 +1368,9 @@ def replay(ctx, rec):
         elif kind == "history":
             res = run_jobs(ctx, [job], workers=1)
             check_histories(ctx, [job], res)
+        elif kind == "codec":
+            res = run_jobs(ctx, [job], workers=1)
+            check_codec(ctx, [job], res)
         elif kind == "load":
             j = text_job(job["id"], job["file"]["text"], {"kind": case.get("damage") or "replay", "lenient": False}) \
                 if job.get("file") and "text" in job["file"] else dict(job, _meta={"kind": case.get("damage") or "replay",
